@@ -661,7 +661,7 @@ func runScenario(s *Scenario, kind string, quiet time.Duration) *runOut {
 		complete = true
 	case isScript && r1.Status == sc.status:
 		switch {
-		case r1.BodyEnd == h1harness.EndOK && bytes.Equal(r1.Body, sc.body):
+		case r1.BodyEnd == h1harness.EndOK && (bytes.Equal(r1.Body, sc.body) || (s.Method == "HEAD" && len(r1.Body) == 0)):
 			// (iii) the complete response: always acceptable
 			complete = true
 		case sc.closeDelimited && r1.BodyEnd == h1harness.EndOK && s.K >= sc.headLen && bytes.Equal(r1.Body, sc.wire[sc.headLen:s.K]):
@@ -710,6 +710,30 @@ func runScenario(s *Scenario, kind string, quiet time.Duration) *runOut {
 	if complete && !resp1ClosesConn {
 		// the connection stayed open after a complete response 1 (a 502 in particular): request 2 must be served
 		ok := len(resps) >= 2 && resps[1].HeadErr == "" && resps[1].Status == 200 && resps[1].Header.Get("X-Second") == "yes" && (string(resps[1].Body) == marker || (m2 == "HEAD" && len(resps[1].Body) == 0)) && resps[1].BodyEnd == h1harness.EndOK
+		if !ok && len(resps) >= 2 && resps[1].HeadErr == "" && resps[1].Status == 502 && resps[1].BodyEnd == h1harness.EndOK {
+			// Request 2 may itself run into an upstream failure: the origin closed the kept-alive upstream
+			// connection after response 1 and the transport may pick that dead connection before it notices
+			// (a non-idempotent request is then not retried). A well-formed 502 is the sanctioned outcome of an
+			// upstream failure - provided the origin really never received request 2.
+			reached := false
+			for _, lr := range env.Origin.Log() {
+				if strings.HasSuffix(lr.Target, "/second") {
+					reached = true
+				}
+			}
+			ws := resps[1].Header["Warning"]
+			seen := false
+			for _, w := range ws {
+				if rec.sawWarningOn502(w) {
+					seen = true
+				}
+			}
+			if !reached && seen {
+				ok = true
+				rest = nil
+				out.outcome += " second=502_upstream_failure"
+			}
+		}
 		if !ok {
 			sym := "second_request_not_served"
 			if is502 {
@@ -911,6 +935,7 @@ func normOutcome(o string) string {
 	o = strings.Replace(o, "werr=true", "werr=*", 1)
 	o = strings.Replace(o, "werr=false", "werr=*", 1)
 	o = strings.Replace(o, "reset", "eof", -1)
+	o = strings.Replace(o, " second=502_upstream_failure", "", 1) // depends on a race inside the transport
 	o = strings.Replace(o, "sent2=true", "sent2=*", 1)
 	o = strings.Replace(o, "sent2=false", "sent2=*", 1)
 	return o
